@@ -160,6 +160,14 @@ def enum_tools(net, tier):
             T.append(["merge_parallel", int(i)])
     if len(net.line) > 1:
         T.append(["line2imp", "all", "net"])
+        # multi-line calls: every ORDERED pair of lines of which at least one is replaceable (the other may be declined
+        # by only_valid_replace, sit at another voltage level, ...): per-call state must not leak between lines
+        ok = [int(i) for i in net.line.index if float(net.line.at[i, "c_nf_per_km"]) == 0.
+              and float(net.line.at[i, "g_us_per_km"]) == 0.]
+        for i in net.line.index:
+            for j in net.line.index:
+                if i != j and (int(i) in ok or int(j) in ok):
+                    T.append(["line2imp", [int(i), int(j)], "net"])
     for i in net.impedance.index:
         T.append(["imp2line", int(i)])
         T.append(["imp2line2imp", int(i)])
@@ -184,6 +192,12 @@ def enum_tools(net, tier):
             T.append(["fuse", int(r.bus), int(r.element)])
             T.append(["fuse", int(r.element), int(r.bus)])
     return T
+
+
+def line_targets(net, t):
+    if t[1] == "all":
+        return list(net.line.index)
+    return list(t[1]) if isinstance(t[1], (list, tuple)) else [t[1]]
 
 
 def clause_of(t):
@@ -261,7 +275,7 @@ def apply_tool(net, t, opts):
         extra["first_keeps_index"] = all(v == [b] for b, v in Mf["bus"].items()) and all(
             imgs == [(tt, i, False)] for tt, rows in Mf["el"].items() for i, imgs in rows.items())
     elif k == "line2imp":
-        idx = list(net.line.index) if t[1] == "all" else [t[1]]
+        idx = line_targets(net, t)
         sn = None if t[2] == "net" else t[2]
         new = tb.replace_line_by_impedance(n2, index=list(idx), sn_mva=sn, only_valid_replace=True)
         replaced = [i for i in idx if i not in n2.line.index]
